@@ -339,8 +339,8 @@ def split_trace(path, parts):
         cur.append(l)
     if cur:
         groups.append(cur)
-    # a trace file is read by TLC in one piece: keep every part below ~40k lines
-    parts = max(parts, (len(lines) + 39999) // 40000)
+    # a trace file is read by TLC in one piece: keep every part below ~40k lines and ~25 MB
+    parts = max(parts, (len(lines) + 39999) // 40000, (sum(len(l) for l in lines) + 25_000_000 - 1) // 25_000_000)
     parts = max(1, min(parts, len(groups)))
     files = []
     for i in range(parts):
@@ -394,11 +394,13 @@ def run_obs(ck, cases_path, tag, levels="0", clevels="", bound=400, timeout_ms=3
     trace = sharded(cases_path, work, lambda i, o, w: [HVEXEC, "obs", "--in", i, "--out", o, "--work", w, "--hyeong", hy, "--jobs", "2",
                                                        "--levels", levels, "--timeout", str(timeout_ms)] + extra)
     # the reference run's step bound travels with the event
-    lines = [json.loads(l) for l in open(trace).read().split("\n") if l.strip()]
-    with open(trace, "w") as f:
-        for e in lines:
-            e["bound"] = bound
-            f.write(json.dumps(e, ensure_ascii=False) + "\n")
+    tmp = trace + ".b"
+    with open(trace) as fi, open(tmp, "w") as fo:
+        for l in fi:
+            l = l.rstrip("\n")
+            if l.strip():
+                fo.write(l[:-1] + ',"bound":%d}\n' % bound)      # every event is one JSON object per line
+    os.replace(tmp, trace)
     return trace
 
 
